@@ -524,7 +524,10 @@ class World:
                             # a market sell whose base is on hold and that pays no fee is always funded: if it fits in
                             # what earlier FILLS left of the bar's liquidity it must be filled
                             ctx.cover("a funded fill-or-kill order competed for liquidity")
-                            ctx.prove(Implies(need <= cap - used, dl["base"] == need),
+                            # (a fill whose quote amount rounds to zero is ignored by design: require a notional of at
+                            # least one quote unit at the bar's low, below which a market sell never trades)
+                            unit = Decimal(1).scaleb(-self.qp)
+                            ctx.prove(Implies(And(need <= cap - used, need * bar_obj.low >= unit), dl["base"] == need),
                                       "C08 market/stop orders that fit in the remaining liquidity are filled, funds "
                                       "permitting [%s]" % tag)
                     used = used + dl["base"]
